@@ -11,6 +11,7 @@ from ..cfg import CFG, Node, assigned_names, cond_facts, def_value, facts_at, ow
 from ..core import Ctx, RuleReport, rule
 from ..resolve import expand, facts_ex
 from ..src import AnalysisError, FuncInfo, dotted, norm, try_fold, walk_local
+from .lexical import single_def
 
 SPEC = Path(__file__).resolve().parent.parent.parent / 'spec'
 
@@ -1055,6 +1056,14 @@ def r103(ctx: Ctx) -> RuleReport:
         rep.add(key, sa.loc(r), 'ok' if good else ('violation' if bad or not fx else 'undecided'),
                 '' if good else 'the usage error is raised for the names that ARE in the table' if bad else 'the usage error does not depend on the table')
     rets = [n for n in walk_local(sa.node) if isinstance(n, ast.Return) and n.value is not None]
+    for r in rets:
+        t_ = {a_[0] for a_ in ctx.types.type_of(sa, r.value)}
+        d_ = single_def(ctx, sa, r.value) if isinstance(r.value, ast.Name) else r.value
+        is_set = 'set' in t_ or (isinstance(d_, ast.Call) and norm(d_.func) in ('set', 'frozenset')) or isinstance(d_, (ast.Set, ast.SetComp)) \
+            or (isinstance(d_, ast.Call) and norm(d_.func) in ('list', 'tuple', 'sorted') and d_.args and isinstance(d_.args[0], ast.Call) and norm(d_.args[0].func) in ('set', 'frozenset')
+                and norm(d_.func) != 'sorted')
+        rep.add(f'{sa.fq}: the keys are returned in the order they were written (the first key has priority)', sa.loc(r), 'violation' if is_set else 'ok',
+                f'`{norm(d_)[:50]}` goes through a set: which key has priority then depends on the hash seed, so the same command line orders branches differently from run to run' if is_set else '')
     if inner:
         rep.add(f'{of.fq}: returns the type function', of.loc(), 'ok' if any(isinstance(n, ast.Return) and n.value is not None and norm(n.value) == sa.name
                                                                                for n in walk_local(of.node)) else 'violation',
